@@ -22,7 +22,9 @@ def quadOf (j : Json) : R (Nat × Nat × Nat × Nat) := do
 def jExt (r : Int × Nat) : Json := Json.arr #[jInt r.1, jNat r.2]
 def jPair (r : Nat × Nat) : Json := Json.arr #[jNat r.1, jNat r.2]
 
-/-- one observation of the implementation, judged by the L0 verdicts of `Model/Extent.lean` -/
+/-- one observation of the implementation, judged by the L0 verdicts of `Model/Extent.lean`, evaluated through their
+one-pass forms (`C04.runOkF_eq`, `selOkF_eq`, `offsetOkF_eq`, `pxSelOkF_eq`: equal to `runOk`, `selOk`, `offsetOk`,
+`pxSelOk` on every input; linear instead of quadratic in the number of bins) -/
 def judge (bins : BinTable) (ps : Pixels) (o : Json) : R Bool := do
   let kind ← getStr o "k"
   let c ← getNat o "c"
@@ -32,10 +34,10 @@ def judge (bins : BinTable) (ps : Pixels) (o : Json) : R Bool := do
   | "ext" =>
       -- a negative upper end (e.g. a wrapped machine integer) is not a bin id: verdict false
       let hi ← getInt o "hi"
-      return decide (0 ≤ hi) && runOk bins c s e (← getInt o "lo") hi.toNat
-  | "ids" => return selOk bins c s e (← getNats o "ids")
-  | "off" => return offsetOk bins c s e (← getInt o "o")
-  | "px" => return pxSelOk bins ps c s e (← getPixels o "rows")
+      return decide (0 ≤ hi) && runOkF bins c s e (← getInt o "lo") hi.toNat
+  | "ids" => return selOkF bins c s e (← getNats o "ids")
+  | "off" => return offsetOkF bins c s e (← getInt o "o")
+  | "px" => return pxSelOkF bins ps c s e (← getPixels o "rows")
   | _ => throw s!"judge: unknown kind {kind}"
 
 def handle : Handler := fun op a =>
@@ -46,6 +48,8 @@ def handle : Handler := fun op a =>
       let bins ← getBins a "bins"
       let n ← getNat a "nchroms"
       let regions ← fld a "regions" >>= listOf tripleOf
+      -- `brief` (tables with 10^5 bins): leave the list of overlapping ids out of the answer
+      let brief := getBoolD a "brief" false
       let bs := getBinsize bins
       let offs := chromOffsets bins n
       let starts := bins.map Bin.start
@@ -54,10 +58,10 @@ def handle : Handler := fun op a =>
         let l1 := regionToExtent bins bs c s e
         let gs := gsFetchAbs bins c s e
         let idx := regionToExtentIdx offs starts bs c s e
-        let ok := runOk bins c s e l1.1 l1.2 && selOk bins c s e (runIds gs.1 gs.2)
-          && offsetOk bins c s e l1.1 && decide (idx = l1)
-        Json.mkObj [("l0", jNats (overlapping bins c s e)), ("l1", jExt l1), ("gs", jPair gs),
-          ("ok", Json.bool ok)]
+        let ok := runOkF bins c s e l1.1 l1.2 && selOkF bins c s e (runIds gs.1 gs.2)
+          && offsetOkF bins c s e l1.1 && decide (idx = l1)
+        Json.mkObj ((if brief then [] else [("l0", jNats (overlappingF bins c s e))]) ++ [("l1", jExt l1), ("gs", jPair gs),
+          ("ok", Json.bool ok)])
       return Json.mkObj [
         ("valid", Json.bool valid), ("binsize", jOpt jNat bs), ("chrom_offsets", jNats offs),
         ("lens", jNats ((List.range n).map fun c => lastStop (groupOf bins c))),
@@ -74,13 +78,13 @@ def handle : Handler := fun op a =>
       let (c, s, e) ← fld a "region" >>= tripleOf
       let bs := getBinsize bins
       return Json.mkObj [
-        ("overlapping", jNats (overlapping bins c s e)),
-        ("containing_position", jNats (containing bins c s)),
+        ("overlapping", jNats (overlappingF bins c s e)),
+        ("containing_position", jNats (containingF bins c s)),
         ("model_binsize", jOpt jNat bs),
         ("model_extent", jExt (regionToExtent bins bs c s e)),
         ("model_extent_variable_path", jExt (regionToExtent bins none c s e)),
         ("model_gs_fetch", jPair (gsFetchAbs bins c s e)),
-        ("pixels_of_overlapping", jPixels (pxOfBins ps (overlapping bins c s e)))]
+        ("pixels_of_overlapping", jPixels (pxOfBins ps (overlappingF bins c s e)))]
   | "C04.unit" => some do
       -- `_region_to_extent` on the stored columns, bin size as given
       let offs ← getNats a "chrom_offset"
